@@ -167,6 +167,20 @@ def run(F, R, tier):
                 F.loc(f), "value is returned from inside the try block before the checks", key="K1|return")
     if seen_sites < 2:
         R.broken("K1: only %d live std::sto* conversion sites found" % seen_sites)
+    # ---- K8: case-insensitive block lookup inside SLHAea ----------------------------------------------------------
+    R.rule("K8", "block names are matched case-insensitively: SLHAea::Coll::find / count locate blocks through key_matches, whose "
+                 "comparison is boost::iequals (the repository's copy of slhaea.h is part of the analysed source)", 2)
+    km = [f for f in F.functions.values() if f["name"] == "SLHAea::Coll::key_matches::operator()"]
+    ok8 = bool(km) and any(is_call(n) and re.search(r"(^|::)iequals$", str(n.get("fn") or "").split("<")[0]) for n in walk(km[0]["body"])) \
+        and not any(n.get("k") in ("BinaryOperator", "CXXOperatorCallExpr") and n.get("op") in ("==", "!=") for n in walk(km[0]["body"]))
+    R.check("K8", ok8, "Coll::key_matches compares with boost::iequals", F.loc(km[0]) if km else "src/slhaea.h",
+            "block names are compared case-sensitively (or not through iequals): `Block sminputs` would no longer be read", key="K8|iequals")
+    finds = [f for f in F.functions.values() if f["name"] == "SLHAea::Coll::find" and f["file"].endswith("slhaea.h")]
+    ok8b = bool(finds) and all(any(n.get("k") in ("CXXConstructExpr", "CXXTemporaryObjectExpr", "CXXFunctionalCastExpr") and "key_matches" in str(n.get("t") or n.get("fn") or "")
+                                   for n in walk(f_["body"])) for f_ in finds)
+    R.check("K8", ok8b, "%d Coll::find overloads search with key_matches" % len(finds), F.loc(finds[0]) if finds else "src/slhaea.h",
+            "Coll::find does not use the case-insensitive predicate", key="K8|find")
+
     # ---- K7: a parsed integer is not narrowed afterwards ---------------------------------------------------------
     R.rule("K7", "a parsed key / index token is not narrowed to a smaller integer type without a range test (a token that "
                  "overflows the type it is used as must be rejected, not aliased to another key)", 0)
